@@ -1,6 +1,6 @@
 (* C15 — Concurrent single-packet operations are linearizable. Theorems only; proofs in Proofs/LinearizeP.v, Proofs/ComposeP.v *)
 From Coq Require Import List NArith Bool Arith Strings.Byte.
-From Sftp Require Import Base.GoSem Lin.Linearize Lin.Compose Proofs.LinearizeP Proofs.ComposeP.
+From Sftp Require Import Base.GoSem Lin.Linearize Lin.Compose Proofs.LinearizeP Proofs.ComposeP Xfer.OffsetLock Proofs.OffsetLockP.
 Import ListNotations.
 
 (* the decision procedure applied to every observed history is sound: a positive answer exhibits an order of the
@@ -52,6 +52,28 @@ Print Assumptions C15_composed_history_linearizable.
    reply carrying its own id), C02 (one response per request, with its id), C14 and C18 (responses unchanged by the
    allocator) say about the layers in between; their conjunction with this theorem is an argument in prose (DESIGN.md 3,
    C15), not a single Coq term. Every observed history is decided independently by the verified checker (family c15). *)
+(* ===== Write: the single-packet operation that takes its position from the File (Xfer/OffsetLock.v) =====
+   File.Write holds f.mu exclusively over reading the offset, sending the request and storing the new offset. For every number
+   of concurrent calls on one File and every interleaving of their steps: when all have returned, the blocks lie at positions
+   0..n-1, every call's block exactly once (none lost, none twice), and the offset stands behind the last - the calls took
+   effect one after the other in the order of their lock acquisitions. Tied by kind cwrite (the observed layout is read by the
+   extracted layout_ok, the observed offset compared with the theorem's). *)
+Theorem C15_concurrent_writes_serialize : forall n tr s,
+  OffsetLock.orun true (OffsetLock.o0 n) tr = Some s -> OffsetLock.all_done s = true ->
+  OffsetLock.off s = n /\ map fst (OffsetLock.cells s) = seq 0 n /\ NoDup (map snd (OffsetLock.cells s)) /\
+  (forall c, c < n -> In c (map snd (OffsetLock.cells s))) /\ OffsetLock.layout_ok n (map snd (OffsetLock.cells s)) = true.
+Proof. exact writes_serialize. Qed.
+Print Assumptions C15_concurrent_writes_serialize.
+
+(* with the shared lock instead, two calls read the same offset: one acknowledged block is replaced by the other and the offset
+   stands one short *)
+Theorem C15_shared_lock_loses_a_write :
+  exists tr s, OffsetLock.orun false (OffsetLock.o0 2) tr = Some s /\ OffsetLock.all_done s = true /\ OffsetLock.off s = 1 /\
+               OffsetLock.holder_of 0 (OffsetLock.cells s) = Some 1 /\ OffsetLock.holder_of 1 (OffsetLock.cells s) = None
+               /\ OffsetLock.layout_ok 2 (map snd (filter (fun e => match OffsetLock.holder_of (fst e) (OffsetLock.cells s) with Some w => w =? snd e | None => false end) (OffsetLock.cells s))) = false.
+Proof. exact shared_lock_loses_a_write. Qed.
+Print Assumptions C15_shared_lock_loses_a_write.
+
 Example C15_nonvacuous :
   let f0 := [x00; x00]%byte in
   lin_check f0 [mkOp 1 1 4 (OWrite 0 [x41]%byte); mkOp 2 2 3 (ORead 0 1 [x41]%byte)] = true /\
